@@ -42,7 +42,65 @@ class Units:
         self.summaries = summaries or {}
         self.field_units = field_units or {}
         self.u = {}          # (local, proj tuple) -> set(units)
+        self.counter = self._counters()
         self._solve()
+
+    def _counters(self):
+        """`x += 1` inside a loop over a recognised iterator counts that iterator's items:
+        Chars / CharIndices -> char, Bytes -> byte, EncodeUtf16 -> utf16, Lines -> line; under a `ch == '\\n'` guard
+        it counts lines. Returns {(bb, stmt idx): unit}."""
+        fn = self.fn
+        out = {}
+        loops = []
+        for b in fn.blocks:
+            t = b.term
+            if t.op == "call" and re.search(r"Iterator>?::next$", t.declared or t.callee or "") and t.j.get("atys"):
+                ty = t.j["atys"][0]
+                k = None
+                if "EncodeUtf16" in ty:
+                    k = UTF16
+                elif re.search(r"Chars<|CharIndices<", ty):
+                    k = CHAR
+                elif re.search(r"str::Bytes<", ty):
+                    k = BYTE
+                elif re.search(r"str::Lines<|SplitTerminator<|Split<", ty):
+                    k = LINE
+                if k:
+                    body = {x for x in fn.reachable(b.i) if b.i in fn.reachable(x)}
+                    loops.append((k, body))
+        if not loops:
+            return out
+        nl_regions = set()
+        for b in fn.blocks:
+            for s in b.stmts:
+                if s.rv == "binop" and s.j["binop"] == "Eq" and any(
+                        (op_const(o) or {}).get("ty") == "char" and (op_const(o) or {}).get("v") in ("\n", "'\\n'", "\\n") for o in s.ops):
+                    t = b.term
+                    if t.op == "switch" and op_place(t.j["discr"]) is not None and op_place(t.j["discr"]).local == s.dst.local:
+                        zero = [tg for v, tg in t.j["arms"] if str(v) == "0"]
+                        tt = t.j.get("otherwise")
+                        if tt is not None and zero:
+                            nl_regions |= {x for x in range(len(fn.blocks)) if fn.dominates(tt, x)}
+        for b in fn.blocks:
+            for i, s in enumerate(b.stmts):
+                if s.rv != "binop" or not re.match(r"Add", s.j["binop"]) or len(s.ops) != 2:
+                    continue
+                c = op_const(s.ops[1])
+                x = op_place(s.ops[0])
+                if not c or str(c.get("v")) != "1" or x is None or x.proj:
+                    continue
+                # the sum is written back to the same variable
+                back = any(d.dst is not None and d.dst.local == x.local and not d.dst.proj and any(
+                    q.local == s.dst.local for q in d.reads()) for d in fn.stmts())
+                if not back:
+                    continue
+                if b.i in nl_regions:
+                    out[(b.i, i)] = LINE
+                    continue
+                ks = {k for k, body in loops if b.i in body}
+                if len(ks) == 1:
+                    out[(b.i, i)] = ks.pop()
+        return out
 
     def get(self, place):
         if place is None:
@@ -111,6 +169,9 @@ class Units:
                             units |= self.get(s.place) | self._field_source(s.place)
                     elif s.rv == "binop":
                         if re.match(r"(Add|Sub)", s.j["binop"]):
+                            cu = self.counter.get((b.i, b.stmts.index(s)))
+                            if cu:
+                                units.add(cu)
                             for o in s.ops:
                                 units |= self.op_units(o)
                                 p = op_place(o)
